@@ -67,11 +67,33 @@ def unify(p, t, env=None):
             if len(p) != len(t):
                 return None
             pp, tt = p, t
+        env0 = env
         for a, b in zip(pp, tt):
             env = unify(a, b, env)
             if env is None:
-                return None
-        return env
+                break
+        if env is not None:
+            return env
+        # arms of a match on distinct constructors commute: try the other orders of the term's arms
+        if len(p) == len(t) and 4 <= len(t) <= 6 and p[0] == "match" and t[0] == "match" and p[-1] != "...":
+            import itertools
+            arms = t[2:]
+            movable = [i for i, a in enumerate(arms) if isinstance(a, tuple) and a and isinstance(a[0], tuple) and a[0] and a[0][0] in ("pvar", "pleaf") and len(a) == 2]
+            if len(movable) >= 2:
+                for perm in itertools.permutations(movable):
+                    if list(perm) == movable:
+                        continue
+                    new = list(arms)
+                    for dst, src in zip(movable, perm):
+                        new[dst] = arms[src]
+                    env = env0
+                    for a, b in zip(p, t[:2] + tuple(new)):
+                        env = unify(a, b, env)
+                        if env is None:
+                            break
+                    if env is not None:
+                        return env
+        return None
     return None
 
 
